@@ -95,6 +95,7 @@ namespace pika::threads::detail {
 
     void thread_data::run_thread_exit_callbacks()
     {
+        PIKA_VERIF_POINT(61, this);
         std::unique_lock<pika::detail::spinlock> l(spinlock_pool::spinlock_for(this));
 
         while (!exit_funcs_.empty())
